@@ -15,18 +15,28 @@ Pow2(w) == {2^j : j \in 0..w}
 Interesting(F) == ({F.min, F.min + 1, F.max - 1, F.max} \cup Pow2(F.w) \cup {p - 1 : p \in Pow2(F.w)}
                    \cup {(2^(F.w) - 1) - p : p \in Pow2(F.w - 1)}) \cap (F.min .. F.max)
 Outside(F) == {F.min - 1, F.max + 1, 2^(F.w), 2^(F.w) + F.min, -1, 2^(F.w + 1) - 1, 2^20} \ (F.min .. F.max)
+(* what the caller supplies for mjd is the TRUE MJD: small true MJDs (zero, powers of two and   *)
+(* their predecessors up to 2^15) are far below the offset and out of range like any other     *)
+SmallTrueMjd == {t - MJDOffset : t \in {0} \cup {2^j : j \in 0..15} \cup {2^j - 1 : j \in 1..15}}
+OutsideOf(k, F) == Outside(F) \cup (IF k = "spec" /\ F.name = "mjd" THEN SmallTrueMjd ELSE {})
 
 Mk(k, f, conv, which, str) == [kind |-> k, f |-> f, conv |-> conv, which |-> which, str |-> str]
+
+(* the calls of the families enumerated in Init also carry, per argument, the integer types *)
+(* admissible for its value (IdLayout!FormsOf): the harness drives the array conventions in  *)
+(* those types as well and the specified outcome is the same (IntFormIndependent)            *)
+MkT(k, f, conv, which, str) == [kind |-> k, f |-> f, conv |-> conv, which |-> which, str |-> str, forms |-> FormsOf(k, f)]
 
 (* Families are written as initial-state predicates so that TLC enumerates them lazily. *)
 Convs3 == {"array", "scalar", "array1"}
 FieldCase(k, i, v, e, conv) == Mk(k, [e EXCEPT ![LayoutOf(k)[i].name] = v], conv, "", <<>>)
+FieldCaseT(k, i, v, e, conv) == MkT(k, [e EXCEPT ![LayoutOf(k)[i].name] = v], conv, "", <<>>)
 
 InitBoundary ==
   \/ \E k \in Kinds : \E i \in DOMAIN LayoutOf(k) : \E v \in Interesting(LayoutOf(k)[i]) :
-       \E e \in Ext(LayoutOf(k)) : \E conv \in Convs3 : c = FieldCase(k, i, v, e, conv)
+       \E e \in Ext(LayoutOf(k)) : \E conv \in Convs3 : c = FieldCaseT(k, i, v, e, conv)
   \/ \E k \in Kinds : \E S \in SUBSET Names(LayoutOf(k)) :
-       c = Mk(k, [n \in Names(LayoutOf(k)) |-> IF n \in S THEN AllMax(LayoutOf(k))[n] ELSE AllMin(LayoutOf(k))[n]],
+       c = MkT(k, [n \in Names(LayoutOf(k)) |-> IF n \in S THEN AllMax(LayoutOf(k))[n] ELSE AllMin(LayoutOf(k))[n]],
               "array", "", <<>>)
 
 (* The two big families are enumerated in two Next steps (root -> seed -> cases) so that *)
@@ -37,6 +47,53 @@ Block == 256
 SweepSeed(k, i, e, b) == [kind |-> "seed", k |-> k, i |-> i, e |-> e, b |-> b]
 Run2dSeed(N, M) == [kind |-> "seed2", N |-> N, M |-> M]
 
+(* ---- arrays of arbitrary length (families "longq" / "long") --------------------------------- *)
+(* The array of length n is Base(k) repeated cyclically (IdLayout!ElemAt); the period is odd so  *)
+(* that no power-of-two block of an implementation lines up with it.  A seed state carries the   *)
+(* base tuples, the outcome specified for each of them and the plan of (identifier form, unwrap  *)
+(* keywords) combinations; its successors are the probe positions (outcome at position p of the  *)
+(* array of length n) and arrays with ONE out-of-range element at a probe position.             *)
+Period == 7
+BaseVal(F, j) == IF j = 1 THEN F.max ELSE IF j = 2 THEN F.min
+                 ELSE F.min + ((j * ((F.max - F.min) \div 5) + 37 * j) % (F.max - F.min + 1))
+Base(k) == [j \in 1..Period |-> [n \in Names(LayoutOf(k)) |-> BaseVal(LayoutOf(k)[FieldOf(LayoutOf(k), n)], j)]]
+Around(S) == UNION {{x - 1, x, x + 1} : x \in S}
+LongOn == "long" \in Families \/ "longq" \in Families
+LongLens == IF "long" \in Families
+            THEN {1, 2, 3, 7} \cup Around({2^k : k \in 3..21} \cup {100000, 1000000})
+            ELSE {1, 2, 3, 7, 8} \cup Around({2^8, 2^16, 2^17}) \cup {100000, 2^20 + 1}
+RejLens == LongLens \cap (IF "long" \in Families THEN {2, 257, 2^16 + 1, 2^17 + 1, 2^20 + 1} ELSE {2, 2^16 + 1, 2^17 + 1})
+Probes(n) == ({0, n - 1, n \div 2} \cup {2^k - 1 : k \in 0..21} \cup {2^k : k \in 0..21} \cup {10000, 100000, 1000000})
+             \cap (0 .. (n - 1))
+(* every form with every keyword combination on short arrays; on long ones each form once, the *)
+(* keywords along a diagonal (every keyword value occurs, the string form of run2d three times) *)
+(* beyond HugeMin (quick tier only) two calls: an integer form with the string run2d, a string *)
+(* form with the integer run2d                                                                  *)
+FullPlanMax == 257
+HugeMin == IF "long" \in Families THEN 2^30 ELSE 2^18
+Plan(k, n) == IF n <= FullPlanMax \/ (k = "obj" /\ n < HugeMin) THEN {[form |-> g, opt |-> o] : g \in IdForms, o \in OptsOf(k)}
+              ELSE IF n >= HugeMin
+              THEN {[form |-> "int", opt |-> IF k = "spec" THEN Opt(FALSE, TRUE) ELSE CHOOSE o \in NoOpts : TRUE],
+                    [form |-> "bstr", opt |-> IF k = "spec" THEN Opt(TRUE, FALSE) ELSE CHOOSE o \in NoOpts : TRUE]}
+              ELSE {[form |-> "int", opt |-> Opt(FALSE, TRUE)], [form |-> "swapped", opt |-> Opt(TRUE, FALSE)],
+                    [form |-> "ustr", opt |-> Opt(TRUE, TRUE)], [form |-> "bstr", opt |-> Opt(FALSE, TRUE)]}
+(* the integer types in which a whole column of the periodic array can be supplied *)
+BaseForms(k) == [n \in Names(LayoutOf(k)) |-> {g \in IntForms : \A j \in 1..Period : g \in FormsOf(k, Base(k)[j])[n]}]
+LongSeed(k, n) == [kind |-> "longseed", k |-> k, len |-> n, base |-> Base(k), plan |-> Plan(k, n), forms |-> BaseForms(k)]
+LongSeedExp(k) == [err |-> FALSE, id |-> {}, per |-> [j \in 1..Period |-> ElemOutcome(k, Base(k)[j])]]
+
+LongStep ==
+  /\ c.kind = "longseed"
+  /\ \/ \E p \in Probes(c.len) :
+          /\ c' = [kind |-> "long", k |-> c.k, len |-> c.len, pos |-> p]
+          /\ exp' = ElemOutcome(c.k, ElemAt(Base(c.k), p))
+     \/ /\ c.len \in RejLens
+        /\ \E p \in Probes(c.len) : \E i \in DOMAIN LayoutOf(c.k) :
+             \E v \in {LayoutOf(c.k)[i].max + 1, LayoutOf(c.k)[i].min - 1} :
+               LET t == [AllMin(LayoutOf(c.k)) EXCEPT ![LayoutOf(c.k)[i].name] = v] IN
+               /\ c' = [kind |-> "longrej", k |-> c.k, len |-> c.len, pos |-> p, which |-> LayoutOf(c.k)[i].name, t |-> t]
+               /\ exp' = ExpectedArrayWith(c.k, Base(c.k), c.len, p, t)
+
 RootStep ==
   /\ c = Root
   /\ \/ /\ "sweep" \in Families
@@ -46,7 +103,9 @@ RootStep ==
         /\ \E N \in 5..6 : \E M \in 0..99 : c' = Run2dSeed(N, M)
      \/ /\ "run2dq" \in Families          \* reduced vN_M_P family for the quick tier
         /\ \E N \in 5..6 : \E M \in {0, 1, 7, 10, 63, 99} : c' = Run2dSeed(N, M)
-  /\ exp' = NoExp
+     \/ /\ LongOn
+        /\ \E k \in Kinds : \E n \in LongLens : c' = LongSeed(k, n)
+  /\ exp' = IF c'.kind = "longseed" THEN LongSeedExp(c'.k) ELSE NoExp
 
 SweepStep ==
   /\ c.kind = "seed"
@@ -63,19 +122,19 @@ Run2dStep ==
   /\ exp' = Expected(c')
 
 InitReject ==
-  \E k \in Kinds : \E i \in DOMAIN LayoutOf(k) : \E v \in Outside(LayoutOf(k)[i]) :
-       \E e \in Ext(LayoutOf(k)) : \E conv \in Convs3 : c = FieldCase(k, i, v, e, conv)
+  \E k \in Kinds : \E i \in DOMAIN LayoutOf(k) : \E v \in OutsideOf(k, LayoutOf(k)[i]) :
+       \E e \in Ext(LayoutOf(k)) : \E conv \in Convs3 : c = FieldCaseT(k, i, v, e, conv)
 
 InitMismatch ==
-  \/ \E k \in Kinds : \E e \in Ext(LayoutOf(k)) : \E n \in Names(LayoutOf(k)) : c = Mk(k, e, "lenmismatch", n, <<>>)
-  \/ \E l \in {1, 5, 1023} : c = Mk("spec", [AllMin(SpecLayout) EXCEPT !.line = l], "lineindex", "", <<>>)
+  \/ \E k \in Kinds : \E e \in Ext(LayoutOf(k)) : \E n \in Names(LayoutOf(k)) : c = MkT(k, e, "lenmismatch", n, <<>>)
+  \/ \E l \in {1, 5, 1023} : c = MkT("spec", [AllMin(SpecLayout) EXCEPT !.line = l], "lineindex", "", <<>>)
 
 Init == \/ c = Root /\ exp = NoExp
         \/ /\ \/ "boundary" \in Families /\ InitBoundary
               \/ "reject" \in Families /\ InitReject
               \/ "mismatch" \in Families /\ InitMismatch
            /\ exp = Expected(c)
-Next == RootStep \/ SweepStep \/ Run2dStep
+Next == RootStep \/ SweepStep \/ Run2dStep \/ LongStep
 IsCall == c.kind \in Kinds
 
 (* spec-level properties *)
@@ -87,4 +146,28 @@ C06_ConvIndependent == IsCall /\ c.conv \in {"array", "scalar", "array1"} => Con
 C06_Run2dString == (IsCall /\ c.str # <<>>) => StringOfRun2d(c.f.run2d) = c.str
 C06_UnpackOfExpected == (IsCall /\ ~exp.err) =>
      ExpectedUnpack(c.kind, exp.id) = (IF c.kind = "spec" THEN [c.f EXCEPT !.mjd = @ + MJDOffset] ELSE c.f)
+(* arrays of arbitrary length: length and position are irrelevant, the base tuples are in range, *)
+(* pairwise distinct and unpack to themselves, one bad element rejects the call, and the form of *)
+(* the identifier is irrelevant                                                                  *)
+C06_PositionIndependent == (c.kind = "long") =>
+     /\ PositionIndependent(c.k, Base(c.k), c.pos)
+     /\ exp = ElemOutcome(c.k, Base(c.k)[(c.pos % Period) + 1])
+     /\ exp.id = Expected(ElemCall(c.k, ElemAt(Base(c.k), c.pos), "scalar")).id
+     /\ ~exp.err /\ IdFormIndependent(c.k, exp.id)
+C06_LongSeed == (c.kind = "longseed") =>
+     /\ \A j \in 1..Period : /\ InRange(LayoutOf(c.k), c.base[j]) /\ ~exp.per[j].err
+                              /\ exp.per[j].u = (IF c.k = "spec" THEN [c.base[j] EXCEPT !.mjd = @ + MJDOffset] ELSE c.base[j])
+                              /\ (c.k = "spec") => Run2dOfString(exp.per[j].s[1], exp.per[j].s[2], exp.per[j].s[3]) = c.base[j].run2d
+     /\ Cardinality({exp.per[j].id : j \in 1..Period}) = Period
+     /\ (c.len < HugeMin) => \A g \in IdForms : \E x \in c.plan : x.form = g
+     /\ \A o \in OptsOf(c.k) : \E x \in c.plan : x.opt.lineIndex = o.lineIndex
+     /\ \A o \in OptsOf(c.k) : \E x \in c.plan : x.opt.run2dString = o.run2dString
+(* the integer type of the array arguments is irrelevant; int64 is always admissible and every *)
+(* listed type represents the supplied value                                                   *)
+C06_IntFormIndependent == IsCall => IntFormIndependent(c)
+C06_FormsFit == (IsCall /\ "forms" \in DOMAIN c) =>
+     \A n \in DOMAIN c.f : /\ {"int64"} \subseteq c.forms[n] /\ c.forms[n] \subseteq IntForms
+                            /\ (c.f[n] >= 0) => ({"uint64", "uint32"} \subseteq c.forms[n])
+                            /\ \A g \in c.forms[n] : TypesAdmissible(c.kind, c.f, [m \in DOMAIN c.f |-> IF m = n THEN g ELSE "int64"])
+C06_LongRejected == (c.kind = "longrej") => (exp = ValueError /\ c.pos \in 0 .. (c.len - 1))
 =============================================================================
